@@ -598,6 +598,8 @@ impl FunctionCompiler<'_> {
             } => {
                 let continue_block = self.continues[&label];
 
+                self.compile_defers_until(label);
+
                 self.builder.ins().jump(continue_block, &[]);
             }
             hir::Stmt::Continue { label: None, .. } => unreachable!(),
@@ -615,27 +617,14 @@ impl FunctionCompiler<'_> {
         }
     }
 
-    /// This pushes a final jump instruction to the block, meaning additional operations
-    /// won't be allowed in the current block
-    fn break_to_label(&mut self, value: Option<Value>, label: hir::ScopeId) {
-        let exit_block = self.exits[&label];
-
-        // run all the defers from here, backwards to the one we are breaking out of
-
+    /// Compiles the defers that were registered so far in every frame from the innermost one up to
+    /// (and including) the frame of `label`. A defer that has not been reached yet is not in its
+    /// frame yet, so it is not run.
+    fn compile_defers_until(&mut self, label: hir::ScopeId) {
         let mut used_frames = Vec::new();
 
         // todo: don't do popping
         while let Some(frame) = self.defer_stack.last().cloned() {
-            // the exit block of every Expr::Block contains the instructions for running
-            // the defers. This break instruction jumps to that exit block.
-            // therefore, we only need to insert extra defer handling for everything OTHER
-            // than the block we are breaking to.
-            if let Some(id) = frame.id {
-                if id == label {
-                    break;
-                }
-            }
-
             // do it in reverse to make sure later defers can still rely on the allocations of
             // previous defers
             for defer in frame.defers.iter().rev() {
@@ -643,9 +632,23 @@ impl FunctionCompiler<'_> {
             }
 
             used_frames.push(self.defer_stack.pop().unwrap());
+
+            if frame.id == Some(label) {
+                break;
+            }
         }
 
         self.defer_stack.extend(used_frames.into_iter().rev());
+    }
+
+    /// This pushes a final jump instruction to the block, meaning additional operations
+    /// won't be allowed in the current block
+    fn break_to_label(&mut self, value: Option<Value>, label: hir::ScopeId) {
+        let exit_block = self.exits[&label];
+
+        // run all the defers from here, backwards to (and including) the one we are breaking out
+        // of. the exit block itself doesn't run any defers.
+        self.compile_defers_until(label);
 
         if let Some(value) = value {
             self.builder
@@ -1392,6 +1395,20 @@ impl FunctionCompiler<'_> {
                     .flatten();
 
                 if !no_eval {
+                    // falling off the end of the block: every defer of this block was reached.
+                    // (jumps out of the block run the defers themselves, see `break_to_label`)
+                    let defers = self
+                        .defer_stack
+                        .last()
+                        .expect("we just pushed this")
+                        .defers
+                        .clone();
+                    // do it in reverse to make sure later defers can still rely on the allocations of
+                    // previous defers
+                    for defer in defers.iter().rev() {
+                        self.compile_expr(*defer);
+                    }
+
                     if let Some(value) = value {
                         self.builder
                             .ins()
@@ -1461,19 +1478,10 @@ impl FunctionCompiler<'_> {
                 self.builder.switch_to_block(exit_block);
                 self.builder.seal_block(exit_block);
 
-                // unwind our defers
+                // the defers were already run by whoever jumped here
 
                 let defer_frame = self.defer_stack.pop().expect("we just pushed this");
-
-                if !no_eval || scope_id.is_some() {
-                    debug_assert_eq!(defer_frame.id, scope_id);
-
-                    // do it in reverse to make sure later defers can still rely on the allocations of
-                    // previous defers
-                    for defer in defer_frame.defers.iter().rev() {
-                        self.compile_expr(*defer);
-                    }
-                }
+                debug_assert_eq!(defer_frame.id, scope_id);
 
                 if final_ty.into_real_type().is_some() {
                     Some(self.builder.block_params(exit_block)[0])
@@ -1581,10 +1589,18 @@ impl FunctionCompiler<'_> {
                 if let Some(ty) = ty.into_real_type() {
                     self.builder.append_block_param(exit_block, ty);
                 }
-                if let Some(scope_id) = self.world_bodies[self.loc.file()].block_to_scope_id(expr) {
+                let scope_id = self.world_bodies[self.loc.file()].block_to_scope_id(expr);
+                if let Some(scope_id) = scope_id {
                     self.continues.insert(scope_id, header_block);
                     self.exits.insert(scope_id, exit_block);
                 }
+
+                // the loop never has defers of its own (they belong to the body block),
+                // this frame only marks where a `break` or `continue` of this loop stops unwinding
+                self.defer_stack.push(DeferFrame {
+                    id: scope_id,
+                    defers: Vec::new(),
+                });
 
                 self.builder.ins().jump(header_block, &[]);
                 self.builder.switch_to_block(header_block);
@@ -1604,6 +1620,8 @@ impl FunctionCompiler<'_> {
                 self.builder.seal_block(body_block);
 
                 self.compile_expr(body);
+
+                self.defer_stack.pop().expect("we just pushed this");
 
                 self.builder.ins().jump(header_block, &[]);
 
